@@ -84,15 +84,93 @@ fn codes_run(log: &mut Log, rng: &mut Rng, alpha: &[u8], q: u32) {
         let n = rng.range(q as i64, q as i64 + 40) as usize;
         texts.push(rng.seq(n, alpha));
     }
+    // a copy of the transform made mid-history (clone / serde round trip / clone_from into a used
+    // transform of another alphabet) answers the reverse iteration, the original the forward one
+    let mut rt2: RankTransform = rt.clone();
+    match (alpha.len() + q as usize) % 3 {
+        0 => log.oblige("ranktransform_clone"),
+        1 => {
+            log.call("serde", json!({}), || {
+                let text = serde_json::to_string(&rt).expect("serialize");
+                rt2 = serde_json::from_str(&text).expect("deserialize");
+                json!({"len": text.len()})
+            });
+            log.oblige("ranktransform_serde_roundtrip");
+        }
+        _ => {
+            let mut used = RankTransform::new(&Alphabet::new(b"xyz"));
+            let _ = used.get(b'y');
+            used.clone_from(&rt);
+            rt2 = used;
+            log.oblige("ranktransform_clone_from_into_used_object");
+        }
+    }
     for t in &texts {
         log.call("codes", json!({"t": bytes(t)}), || {
             let c: Vec<usize> = rt.qgrams(q, t).collect();
             codes_json(&c, q, bits)
         });
         log.call("rev_codes", json!({"t": bytes(t)}), || {
-            let c: Vec<usize> = rt.rev_qgrams(q, t).collect();
+            let c: Vec<usize> = rt2.rev_qgrams(q, t).collect();
             codes_json(&c, q, bits)
         });
+        if bits * q > 30 {
+            continue;
+        }
+        // the same code sequence consumed in other ways and fed from other kinds of iterators
+        let opt = |x: Option<usize>| x.map(|v| v as i64).unwrap_or(-1);
+        log.call("codes_iter", json!({"t": bytes(t)}), || {
+            let it = rt.qgrams(q, t);
+            let (lo, hi) = it.size_hint();
+            let len = it.len();
+            let rit = rt2.rev_qgrams(q, t);
+            let (rlo, rhi) = rit.size_hint();
+            let mut forks = vec![];
+            let total = rt.qgrams(q, t).count();
+            for k in [0usize, 1, total / 2, total] {
+                if k > total {
+                    continue;
+                }
+                let mut a = rt.qgrams(q, t);
+                let h: Vec<usize> = a.by_ref().take(k).collect();
+                let b = a.clone();
+                let mut ra = rt2.rev_qgrams(q, t);
+                let rh: Vec<usize> = ra.by_ref().take(k).collect();
+                let rb = ra.clone();
+                forks.push(json!({"h": h, "a": a.collect::<Vec<usize>>(), "b": b.collect::<Vec<usize>>(),
+                                  "rh": rh, "ra": ra.collect::<Vec<usize>>(), "rb": rb.collect::<Vec<usize>>()}));
+            }
+            json!({"count": total, "lo": lo, "hi": opt(hi), "len": len, "rlo": rlo, "rhi": opt(rhi),
+                   "rcount": rt2.rev_qgrams(q, t).count(),
+                   "last": opt(rt.qgrams(q, t).last()), "rlast": opt(rt2.rev_qgrams(q, t).last()),
+                   "nth": (0..4usize).map(|k| opt(rt.qgrams(q, t).nth(k))).collect::<Vec<i64>>(),
+                   "rnth": (0..4usize).map(|k| opt(rt2.rev_qgrams(q, t).nth(k))).collect::<Vec<i64>>(),
+                   "skip2": rt.qgrams(q, t).skip(2).collect::<Vec<usize>>(),
+                   "step3": rt.qgrams(q, t).step_by(3).collect::<Vec<usize>>(),
+                   "rstep2": rt2.rev_qgrams(q, t).step_by(2).collect::<Vec<usize>>(),
+                   "forks": forks})
+        });
+        log.call("codes_variants", json!({"t": bytes(t)}), || {
+            // by-value items, inexact size hints (filter / flat_map / take_while), chained halves
+            let half = t.len() / 2;
+            let f: Vec<Vec<usize>> = vec![
+                rt.qgrams(q, t.iter().cloned()).collect(),
+                rt.qgrams(q, t.iter().filter(|_| true)).collect(),
+                rt.qgrams(q, t.iter().flat_map(|b| std::iter::once(*b))).collect(),
+                rt.qgrams(q, t.iter().take_while(|_| true)).collect(),
+                rt.qgrams(q, t[..half].iter().chain(t[half..].iter())).collect(),
+                rt.qgrams(q, t.clone()).collect(),
+            ];
+            let r: Vec<Vec<usize>> = vec![
+                rt2.rev_qgrams(q, t.iter().cloned()).collect(),
+                rt2.rev_qgrams(q, t.iter().filter(|_| true)).collect(),
+                rt2.rev_qgrams(q, t[..half].iter().chain(t[half..].iter())).collect(),
+                rt2.rev_qgrams(q, t.clone()).collect(),
+            ];
+            json!({"f": f, "r": r})
+        });
+        log.oblige("qgram_iterators_forked_and_consumed_by_adaptors");
+        log.oblige("qgram_input_iterators_by_value_and_inexact_hints");
     }
 }
 
@@ -143,27 +221,130 @@ fn index_run(log: &mut Log, tag: &str, c: &IndexCase) {
         None => return,
     };
     let rt = RankTransform::new(&alphabet);
-    for g in &c.grams {
-        log.call("qgram_matches", json!({"g": bytes(g)}), || {
-            let code = rt.qgrams(c.q, g).next().unwrap();
-            json!({"v": usizes(index.qgram_matches(code))})
-        });
+    if q == 1 {
+        log.oblige("q_equals_1");
     }
-    for (pi, p) in c.patterns.iter().enumerate() {
-        if p.len() < q {
-            log.oblige("pattern_shorter_than_q");
+    if c.text.len() == q {
+        log.oblige("text_length_equals_q");
+    }
+    // a copy of the index made mid-history; the original and the copy both go on answering
+    let salt = c.text.len() * 3 + c.patterns.len() + q + sigma;
+    let orig = index;
+    let mut copy: Option<QGramIndex> = None;
+    match salt % 4 {
+        1 => {
+            log.call("clone", json!({}), || {
+                copy = Some(orig.clone());
+                json!({})
+            });
+            log.oblige("qgramindex_clone");
         }
-        let min_count = [1usize, 2, 5, 0, 1][pi % 5];
-        log.call("matches", json!({"p": bytes(p), "min_count": min_count}), || {
-            let v = index.matches(p, min_count);
-            json!({"v": v.iter().map(|m| json!({"ps": m.pattern.start, "pe": m.pattern.stop,
-                   "ts": m.text.start, "te": m.text.stop, "count": m.count})).collect::<Vec<_>>()})
-        });
-        log.call("exact_matches", json!({"p": bytes(p)}), || {
-            let v = index.exact_matches(p);
-            json!({"v": v.iter().map(|m| json!({"ps": m.pattern.start, "pe": m.pattern.stop,
-                   "ts": m.text.start, "te": m.text.stop})).collect::<Vec<_>>()})
-        });
+        2 => {
+            log.call("serde", json!({}), || {
+                let text = serde_json::to_string(&orig).expect("serialize");
+                copy = Some(serde_json::from_str(&text).expect("deserialize"));
+                json!({"len": text.len()})
+            });
+            log.oblige("qgramindex_serde_roundtrip");
+        }
+        3 => {
+            log.call("clone_from", json!({}), || {
+                let mut used = QGramIndex::new(2, b"xyzzyx", &Alphabet::new(b"xyz"));
+                let _ = used.matches(b"zzy", 1);
+                used.clone_from(&orig);
+                copy = Some(used);
+                json!({})
+            });
+            log.oblige("qgramindex_clone_from_into_used_object");
+        }
+        _ => {}
+    }
+    if salt % 4 != 0 && copy.is_none() {
+        return;
+    }
+    // the queries in an order that depends on the case (forward, reverse, interleaved); each goes to the
+    // copy or to the original in turn
+    enum Q<'a> {
+        Gram(&'a Vec<u8>),
+        Pat(usize, &'a Vec<u8>),
+    }
+    let mut qs: Vec<Q> = c.grams.iter().map(Q::Gram).collect();
+    qs.extend(c.patterns.iter().enumerate().map(|(i, p)| Q::Pat(i, p)));
+    match salt % 3 {
+        1 => qs.reverse(),
+        2 => {
+            let half = qs.len() / 2;
+            let tail = qs.split_off(half);
+            let mut mixed = vec![];
+            let mut a = qs.into_iter();
+            let mut b = tail.into_iter();
+            loop {
+                match (b.next(), a.next()) {
+                    (None, None) => break,
+                    (x, y) => {
+                        mixed.extend(x);
+                        mixed.extend(y);
+                    }
+                }
+            }
+            qs = mixed;
+        }
+        _ => {}
+    }
+    if salt % 3 != 0 {
+        log.oblige("index_queries_in_varying_order");
+    }
+    let mjson = |v: &[bio::data_structures::qgram_index::Match]| {
+        json!({"v": v.iter().map(|m| json!({"ps": m.pattern.start, "pe": m.pattern.stop,
+               "ts": m.text.start, "te": m.text.stop, "count": m.count})).collect::<Vec<_>>()})
+    };
+    let mut turn = 0usize;
+    for qu in &qs {
+        turn += 1;
+        let index: &QGramIndex = match &copy {
+            Some(cp) if turn % 2 == 0 => cp,
+            _ => &orig,
+        };
+        if copy.is_some() && turn == 2 {
+            log.oblige("qgramindex_original_and_copy_both_continue");
+        }
+        match qu {
+            Q::Gram(g) => {
+                log.call("qgram_matches", json!({"g": bytes(g)}), || {
+                    let code = rt.qgrams(c.q, g.iter()).next().unwrap();
+                    json!({"v": usizes(index.qgram_matches(code))})
+                });
+            }
+            Q::Pat(pi, p) => {
+                if p.len() < q {
+                    log.oblige("pattern_shorter_than_q");
+                }
+                if p.len() == q {
+                    log.oblige("pattern_length_equals_q");
+                }
+                let min_count = [1usize, 2, 5, 0, 1][pi % 5];
+                let mut counts: Vec<usize> = vec![];
+                log.call("matches", json!({"p": bytes(p), "min_count": min_count}), || {
+                    let v = index.matches(p, min_count);
+                    counts = v.iter().map(|m| m.count).collect();
+                    mjson(&v)
+                });
+                // min_count exactly at / one above a count that was reported (taken from the answer)
+                if let Some(&cnt) = counts.iter().max() {
+                    if pi % 2 == 0 {
+                        for mc in [cnt, cnt + 1] {
+                            log.call("matches", json!({"p": bytes(p), "min_count": mc}), || mjson(&index.matches(p, mc)));
+                        }
+                        log.oblige("min_count_equals_a_diagonal_count");
+                    }
+                }
+                log.call("exact_matches", json!({"p": bytes(p)}), || {
+                    let v = index.exact_matches(p);
+                    json!({"v": v.iter().map(|m| json!({"ps": m.pattern.start, "pe": m.pattern.stop,
+                           "ts": m.text.start, "te": m.text.stop})).collect::<Vec<_>>()})
+                });
+            }
+        }
     }
 }
 
@@ -188,7 +369,7 @@ fn make_case(log: &mut Log, rng: &mut Rng, sigma: usize, q: u32, variant: u64) -
     let alpha = random_alphabet(rng, sigma);
     let qs = q as usize;
     let n = match variant % 5 {
-        0 => rng.range(0, (qs + 1) as i64) as usize, // around q
+        0 => [qs, qs.saturating_sub(1), qs + 1, 0][(variant / 5 % 4) as usize], // around q
         1 => rng.range(qs as i64, 20) as usize,
         2 | 3 => rng.range(20, 80) as usize,
         _ => rng.range(80, 200) as usize,
@@ -203,12 +384,28 @@ fn make_case(log: &mut Log, rng: &mut Rng, sigma: usize, q: u32, variant: u64) -
     } else {
         rng.seq(n, &alpha)
     };
-    let max_count: i64 = match variant % 4 {
+    let mut max_count: i64 = match variant % 4 {
         0 => -1,
         1 => 1,
         2 => 2,
         _ => rng.range(3, 6),
     };
+    // max_count exactly at / one below the number of occurrences of a q-gram of the text (the count is
+    // asked from an unrestricted index: an answer used to choose the next input)
+    if variant % 4 == 3 && n >= qs {
+        let tmp = QGramIndex::new(q, &text, &Alphabet::new(&alpha));
+        let rt = RankTransform::new(&Alphabet::new(&alpha));
+        let p = rng.below((n - qs + 1) as u64) as usize;
+        let code = rt.qgrams(q, &text[p..p + qs]).next().unwrap();
+        let occ = tmp.qgram_matches(code).len() as i64;
+        if variant % 8 == 3 {
+            max_count = occ;
+            log.oblige("max_count_equals_an_occurrence_count");
+        } else if occ >= 1 {
+            max_count = occ - 1;
+            log.oblige("max_count_one_below_an_occurrence_count");
+        }
+    }
     // q-grams asked: those of the text (capped), random ones, all when there are few
     let mut grams: Vec<Vec<u8>> = vec![];
     if sigma.pow(q) <= 32 {
@@ -258,6 +455,11 @@ fn make_case(log: &mut Log, rng: &mut Rng, sigma: usize, q: u32, variant: u64) -
         }
     }
     patterns.push(rng.seq(qs.saturating_sub(1), &alpha)); // shorter than q
+    if n >= qs {
+        let p = rng.below((n - qs + 1) as u64) as usize;
+        patterns.push(text[p..p + qs].to_vec()); // exactly one q-gram, taken from the text
+    }
+    patterns.push(rng.seq(qs, &alpha)); // exactly one q-gram, random
     IndexCase { alpha, q, text, max_count, patterns, grams }
 }
 
